@@ -18,7 +18,7 @@
 (* finds a behaviour of SearchImpl that consumes all its events and ends   *)
 (* in pc = "done"; acceptance is reported per trace via PrintT.            *)
 (***************************************************************************)
-EXTENDS SearchImpl, Json, IOUtils
+EXTENDS SearchImpl, Json, IOUtils, SequencesExt
 
 Traces == ndJsonDeserialize(IOEnv.QA_OBS_FILE)
 
@@ -88,6 +88,13 @@ OutOK(t) ==
   /\ IF \A i, j \in 1..Len(ys) : (i < j /\ ys[i].val = ys[j].val) => ys[i].score < ys[j].score
      THEN TRUE ELSE OutBad(t, "re-emitted-without-better-score")
   /\ IF \A i \in 1..Len(ys) : Truthful(ys[i]) THEN TRUE ELSE OutBad(t, "untruthful-production")
+  \* C13: what a run under a deadline streamed is a prefix of what the same run streams without one
+  /\ IF IsPrefix(ys, TR[t].full) THEN TRUE ELSE OutBad(t, "not-a-prefix-of-the-untimed-stream")
+  /\ IF TR[t].timedout = 1 => CanExpire THEN TRUE ELSE OutBad(t, "timed-out-without-deadline")
+  \* C13: the deadline is re-checked before analysing each candidate sequence and before expanding
+  \* each partial parse (the check is part of ScoreInit / Pop in SearchImpl)
+  /\ IF \A i \in 1..Len(TR[t].ev) : TR[t].ev[i].ev \in {"S0", "Pop"} => (i > 1 /\ TR[t].ev[i - 1].ev = "Chk")
+     THEN TRUE ELSE OutBad(t, "no-deadline-check-before-sequence-or-expansion")
 ASSUME \A t \in 1..Len(TR) : OutOK(t)
 
 \* acceptance: some behaviour consumed every event of trace tid (reported once per trace)
